@@ -313,6 +313,7 @@ struct Gen
   }
 
   // tangent coordinates for the algebra laws: 0: {0,+-1}; 1: O(1); 2: translations 1e3; 3: zero; 4: integers;
+  // 6: large (all coordinates up to 12: rotation parts beyond pi);
   // 5: tiny (O(1) coordinates scaled by 2^-44 / 2^-19 for float: far below any "is it zero?" threshold of the
   //    library, far above underflow of the products) - hat, vee, ad and the bracket are (bi)linear, so their
   //    results on tiny arguments are tiny but exactly as accurate, relatively, as on large ones
@@ -332,6 +333,7 @@ struct Gen
         double x;
         if (cls == 0) x = r.idx(3) - 1;
         else if (cls == 4) x = r.idx(7) - 3;
+        else if (cls == 6) x = r.uni(-12, 12);   // rotation coordinates of several turns: hat/vee/ad are linear, no wrapping
         else if (cls == 2 && f.kind == TRANS) x = r.uni(-1e3, 1e3);
         else x = r.uni(-2, 2);
         a[static_cast<std::size_t>(f.toff + i)] = x;
